@@ -40,7 +40,7 @@ RULE = ("each run draws a server byte stream from a response grammar (every stat
         "plain connection, or GeminiClient.get/upload over TLS with a timeout of 1-30 s); baseline "
         "and segmented variant are both run. distinct = distinct (stream class, end, entry, result "
         "class); non-trivial = the stream was corrupted, cut short or segmented")
-PROBES = ["overlapping_calls_on_one_client", "upload_larger_than_socket_buffers", "unknown_charset", "nontext_codec", "over_cap", "stall_timeout", "rst_mid_body",
+PROBES = ["server_stream_damaged_in_transit", "overlapping_calls_on_one_client", "upload_larger_than_socket_buffers", "unknown_charset", "nontext_codec", "over_cap", "stall_timeout", "rst_mid_body",
           "fin_without_close_notify", "invalid_header", "must_succeed_core", "tls_entry",
           "titan_entry", "non2x_with_trailing_bytes", "connect_phase_fault", "trickling_server"]
 COMPONENTS = {
@@ -245,7 +245,7 @@ def expectation(info, end, prefix_len, cap):
     return exp
 
 
-def run_case(ch, cfg, variant):
+def run_case(ch, cfg, variant, damage=None):
     from nauyaca.client import protocol as cproto
     from nauyaca.client.session import GeminiClient
     sim = Sim(ch)
@@ -284,7 +284,7 @@ def run_case(ch, cfg, variant):
                           dribble_limit=300)
     else:
         pol = WholePolicy(0.001)
-    sim.loop.link_for_connect = lambda h, p: {"s2c": pol}
+    sim.loop.link_for_connect = lambda h, p: {"s2c": pol, "corrupt_s2c": damage}
     old_cap = cproto.MAX_RESPONSE_BODY_SIZE
     cproto.MAX_RESPONSE_BODY_SIZE = cfg["cap"]
     out = {}
@@ -336,6 +336,7 @@ def run_case(ch, cfg, variant):
     peer = srv.conns[0] if srv.conns else None
     out["t_last_delivery"] = peer.ep.tx.last_arrival if peer else None
     out["t_connected"] = peer.t_hs_done if (peer and tls) else (peer.t_accept if peer else None)
+    out["s2c_sent"] = peer.ep.tx.sent if peer else 0
     return out
 
 
@@ -713,6 +714,38 @@ def run_one(ch):
                                 f"CRLF (decoded with the declared charset)",
                                 got_body=(body[:80] if body is not None else None),
                                 want_body=(want[:80] if want is not None else None), **ctx)
+    # the same stream once more with ONE BYTE INVERTED IN TRANSIT somewhere in the server's
+    # TLS stream (handshake flights or application records): TLS detects it, so the call
+    # ends in an error - or, if the damage came after everything that matters, in exactly
+    # the undamaged result - never in different content, and within the same deadlines
+    if entry in ("get", "upload") and ch.chance("damage", 0.2):
+        k = ch.choose("damagek", 2600 + len(sent))
+        cfg["scratch"] = fresh_dir("c13d")
+        dmg = run_case(ch, cfg, False, damage=k)
+        rd = dmg.get("res")
+        hit = dmg["s2c_sent"] > k
+        ctx["damaged_offset"] = k
+        ctx["damage_within_stream"] = hit
+        ctx["damaged"] = _r(dmg)
+        res.stats["server_stream_damaged_in_transit"] += 1 if hit else 0
+        if dmg["status"] != "done" or rd is None:
+            res.violate(f"C13/call-never-returned/damaged-stream/{entry}",
+                        f"damaged stream: the call was still pending when the simulation ran out "
+                        f"({dmg['status']})", **ctx)
+        else:
+            limit = (dmg["t_connected"] if dmg["t_connected"] is not None else dmg["t0"]) + T + 1.0
+            if dmg["t_done"] > limit:
+                res.violate(f"C13/timeout-not-enforced/damaged-stream/{entry}",
+                            f"damaged stream: call ended at {dmg['t_done']:.3f}, limit {limit:.3f}",
+                            **ctx)
+            rb0 = base.get("res")
+            if rd[0] == "resp" and hit and (rb0 is None or rb0[0] != "resp" or rb0[1:4] != rd[1:4]):
+                res.violate(f"C13/damaged-stream-accepted/{entry}",
+                            "one byte of the server's TLS stream was inverted in transit, yet the "
+                            "call returned a response that differs from the undamaged one", **ctx)
+            if rd[0] == "exc" and not rd[3]:
+                res.violate(f"C13/non-exception-escaped/{rd[1]}/{entry}",
+                            f"damaged stream: the call raised {rd[1]}", **ctx)
     rb, rv = base.get("res"), var.get("res")
     if rb and rv and not res.violations:
         nb = rb[:2] + (rb[2:4] if rb[0] == "resp" else ())
